@@ -59,7 +59,7 @@ def main():
         if rng.random() < 0.6:
             cases.append({"op": "level", "l": {"t": "qty", "m": fl(qm), "u": uq}, "r": lu}); meta.append((fam, k, base, pv, uq, ur))
         else:
-            lm = rng.choice([0.0, 1.0, -3.0, 20.0, 0.5, rng.uniform(-200, 200) * float(pv if pv < 1 else 1) * (1 if base is None or base >= 2 else 1)])
+            lm = rng.choice([0.0, 1.0, -3.0, 20.0, 0.5, rng.uniform(-200, 200), rng.uniform(-200, 200), -200.0, 200.0, -160.0])
             # keep base**(l*p/k) within float range
             bb = float(base) if base is not None else float(E)
             import math
